@@ -9,6 +9,12 @@ FINDINGS = [
          what="a symbol generated as (or from) an argparse function loses the None default of an Optional parameter - the per-format loss recorded as C02 R-argparse-none-default, seen through gen",
          site="cdd/shared/ast_utils.py:param2argparse_param / cdd/argparse_function/utils/emit_utils.py:parse_out_param",
          example="class Beta with names: Optional[List[str]] = None, gen --emit argparse: the generated function parses back without a default for names"),
+    dict(id="C19-sqlalchemy-input-to-json-schema-identity-call-not-serialisable", property="C19",
+         pattern=dict(check="gen", clause="gen_raises", emit="json_schema", input_kinds="sqlalchemy", exc="TypeError"),
+         what="[C16-inferred-id-leaks-ast-call] a declarative model whose primary key is the generated `id` column carries server_default=Identity() as an ast.Call in the interface; "
+              "gen --emit json_schema then dies in json.dump ('Object of type Call is not JSON serializable') and leaves no output",
+         site="cdd/sqlalchemy/utils/parse_utils.py (keeps the Call node) / cdd/compound/gen.py (json dump of the interface)",
+         example="class Alpha(Base): n = Column(Integer, default=5, ...); id = Column(Integer, primary_key=True, server_default=Identity()); gen --parse sqlalchemy --emit json_schema"),
 ]
 FIXED = [
     "fixed: property=C19 cf13eae gen with two or more inferred import lines, or --imports-from-file with two or more imports, joined them on one line and died with SyntaxError",
